@@ -467,6 +467,88 @@ func (r *c13Run) runCase(cs c13Case) {
 		}
 	}
 
+	// ---------- mask / threshold tampering of a value that has already been verified ----------
+	// (same value and by-value copy: Keys()/FullVerify ran before Mask is changed)
+	{
+		type mt struct {
+			class string
+			mask  uint64
+			t     int
+		}
+		var tampers []mt
+		for _, i := range members {
+			tampers = append(tampers, mt{"drop-signer", cs.mask &^ (uint64(1) << uint(i)), 1})
+			if k >= 2 {
+				tampers = append(tampers, mt{"below-threshold", cs.mask &^ (uint64(1) << uint(i)), k})
+			}
+		}
+		var non []int
+		for j := 0; j < v.n; j++ {
+			if cs.mask&(uint64(1)<<uint(j)) == 0 {
+				non = append(non, j)
+			}
+		}
+		if v.n > 10 && len(non) > 2 {
+			non = []int{non[0], non[len(non)-1]}
+		}
+		for _, j := range non {
+			tampers = append(tampers, mt{"add-signer", cs.mask | uint64(1)<<uint(j), 1})
+		}
+		for _, j := range []int{v.n, 63} {
+			if j >= v.n && j <= 63 {
+				tampers = append(tampers, mt{"outside-vector", cs.mask | uint64(1)<<uint(j), 1})
+			}
+		}
+		tampers = append(tampers, mt{"shifted", cs.mask << 1, 1})
+		for ti, tm := range tampers {
+			if tm.mask == cs.mask {
+				continue
+			}
+			// is the tampered mask really invalid for this signature? (reference)
+			inside := true
+			var tk []*Key
+			for _, j := range c13Members(tm.mask) {
+				if j >= v.n {
+					inside = false
+					break
+				}
+				tk = append(tk, v.pub[j])
+			}
+			if inside && len(tk) > 0 && len(tk) >= tm.t && c13RefVerify(c13RefSum(tk), honestSig, msg[:]) {
+				r.noop.Add(1)
+				continue
+			}
+			for _, mode := range []string{"same-value", "copy"} {
+				c.Eval(1)
+				c.Distinct(fmt.Sprintf("%safter-use|%d|%s|%s", tag, ti, tm.class, mode))
+				used := build()
+				if used.AggregateResponse(v.pub, cpResp(resp), msg, false) != nil || used.FullVerify(v.pub, k, msg) != nil || !c13EqualInts(used.Keys(), members) {
+					r.viol(cs, "honest:fullverify-rejected", "second honest aggregation of the same shares fails", nil)
+					continue
+				}
+				target := used
+				if mode == "copy" {
+					cp := *used
+					target = &cp
+				}
+				target.Mask = tm.mask
+				rep := map[string]any{"tamper": tm.class, "new_mask": fmt.Sprintf("%016x", tm.mask), "threshold": tm.t, "applied_to": mode + " after FullVerify and Keys()"}
+				if target.FullVerify(v.pub, tm.t, msg) == nil {
+					c.Outcome("after-use:" + tm.class + ":accepted")
+					r.viol(cs, "full:accepted-after-use:"+tm.class, fmt.Sprintf("verified signature keeps verifying (threshold %d) after its Mask is changed to %016x (%s, %s)", tm.t, tm.mask, tm.class, mode), rep)
+					continue
+				}
+				c.Outcome("after-use:" + tm.class + ":reject")
+				// and back: the right mask on a value that has just been used with a wrong one
+				target.Mask = cs.mask
+				if err := target.FullVerify(v.pub, k, msg); err != nil {
+					c.Outcome("after-use:restore-rejected")
+					r.viol(cs, "honest:fullverify-rejected-after-mask-restored", fmt.Sprintf("honest signature no longer verifies once its Mask was changed to %016x and back: %v", tm.mask, err), rep)
+				}
+			}
+		}
+	}
+
 	// ---------- every commitment index shifted by one ----------
 	c.Eval(1)
 	c.Distinct(tag + "shift")
@@ -653,7 +735,7 @@ func (r *c13Run) runBoundary(v65 *c13Vec) {
 func TestMC_C13(t *testing.T) {
 	c := verifmc.Start(t, "C13", "exploration")
 	defer c.Finish()
-	c.SetRule("key vectors n in {1,2,3,5,8,64} x masks (all 2^n-1 for n<=8; for n=64 every single index 0..63, every adjacent pair, the full mask; thorough tier adds n in {4,6,7,10} with all masks and every index pair for n=64) x 2 messages; per case: honest flow, threshold menu {0,1,|M|-1,|M|,|M|+1,65}, every member x {share of another signer, share for the other message, s+1, s+l non-canonical, response missing, index marked twice}, all indexes shifted by one, extra mask bit at n and 63, truncated key vector; plus index 64 / -1 sets with a 65-key vector. A case is distinct by (n, mask, message, scenario, signer, tamper kind)")
+	c.SetRule("key vectors n in {1,2,3,5,8,64} x masks (all 2^n-1 for n<=8; for n=64 every single index 0..63, every adjacent pair, the full mask; thorough tier adds n in {4,6,7,10} with all masks and every index pair for n=64) x 2 messages; per case: honest flow, threshold menu {0,1,|M|-1,|M|,|M|+1,65}, every member x {share of another signer, share for the other message, s+1, s+l non-canonical, response missing, index marked twice}, all indexes shifted by one, extra mask bit at n and 63, truncated key vector; every mask/threshold tamper (each signer dropped, dropped with threshold |M|, each outside signer added [n=64: lowest and highest], bit n / 63 added, mask shifted) also applied to a value that has already been aggregated and verified, both in place and on a by-value copy, followed by restoring the mask; plus index 64 / -1 sets with a 65-key vector. A case is distinct by (n, mask, message, scenario, signer, tamper kind)")
 	c.Assume("reference verifier: plain Schnorr on filippo.io/edwards25519 with challenge SHA-512(R||A||m), A and R plain sums over masked signers (the construction of crypto/signature.go and crypto/cosi.go)",
 		"keys and nonces are derived deterministically from SHA-512 of labels through NewKeyFromSeed; nonce single-use handling (CosiNonce) is the subject of C12 and bypassed here (CosiSignature.Response is called directly)",
 		"the 'index marked twice' scenario is produced in-package with CosiSignature.mark because a Go map cannot carry a duplicated index")
@@ -728,6 +810,9 @@ func TestMC_C13(t *testing.T) {
 		c.Require(c.OutcomeCount("tamper:plus-one:full-reject") > 0 && c.OutcomeCount("tamper:non-canonical:nonstrict-agg-reject") > 0, "non-strict tamper outcomes missing")
 		c.Require(c.OutcomeCount("threshold:accept") > 0 && c.OutcomeCount("threshold:reject-above") > 0, "threshold outcomes missing")
 		c.Require(c.OutcomeCount("repeat:strict-reject") > 0 && c.OutcomeCount("missing:agg-reject") > 0 && c.OutcomeCount("missing:full-reject") > 0, "missing/repeated signer outcomes missing")
+		for _, cl := range []string{"drop-signer", "below-threshold", "add-signer", "outside-vector", "shifted"} {
+			c.Require(c.OutcomeCount("after-use:"+cl+":reject") > 0, "after-use tamper %s never rejected", cl)
+		}
 		c.Require(c.OutcomeCount("outside:reject") > 0 && c.OutcomeCount("shift:api-reject") > 0 && c.OutcomeCount("boundary:commit-reject") > 0, "mask fault outcomes missing")
 		c.Require(r.refOK.Load() > 0 && r.refBad.Load() > 0, "reference verifier not exercised in both directions")
 	}
